@@ -37,8 +37,8 @@ def bad_object(env: Env, what: str) -> Any:
 
 
 class C09Engine(Engine):
-    def __init__(self, env: Env, world: World) -> None:
-        super().__init__(env, world, PROP, via_add=True)
+    def __init__(self, env: Env, world: World, prop: str = PROP, pre: Optional[Dict[str, Any]] = None) -> None:
+        super().__init__(env, world, prop, via_add=True, pre=pre)
 
     # ------------------------------------------------------------ expectation
     def expect(self, op: List[Any]) -> Tuple[Any, ...]:
@@ -288,17 +288,17 @@ class C09Engine(Engine):
         status = ""
         if e[0] == "accept":
             if outcome is not None:
-                raise Violation(PROP, "outcome", {**ctx, "expected": "accepted", "got": repr(outcome)[:200]},
+                raise Violation(self.prop, "outcome", {**ctx, "expected": "accepted", "got": repr(outcome)[:200]},
                                 f"accept-raised:{op[0]}:{exname}")
             self.commit(op)
             self.count("ok:" + e[1])
             status = "accepted"
         elif e[0] == "reject":
             if outcome is None:
-                raise Violation(PROP, "outcome", {**ctx, "expected": f"rejected ({e[1]})", "got": "accepted"},
+                raise Violation(self.prop, "outcome", {**ctx, "expected": f"rejected ({e[1]})", "got": "accepted"},
                                 f"not-rejected:{e[1]}")
             if e[2] is not None and exname not in e[2]:
-                raise Violation(PROP, "outcome", {**ctx, "expected": e[2], "fault": e[1], "got": repr(outcome)[:200]},
+                raise Violation(self.prop, "outcome", {**ctx, "expected": e[2], "fault": e[1], "got": repr(outcome)[:200]},
                                 f"wrong-error:{e[1]}:{exname}")
             self.count("fault:" + e[1])
             status = "rejected"
@@ -306,7 +306,7 @@ class C09Engine(Engine):
             _, fault, errs, owner, field, cands, may_reject = e
             if outcome is not None:
                 if not may_reject or exname not in errs:
-                    raise Violation(PROP, "outcome", {**ctx, "fault": fault, "got": repr(outcome)[:200]},
+                    raise Violation(self.prop, "outcome", {**ctx, "fault": fault, "got": repr(outcome)[:200]},
                                     f"wrong-error:{fault}:{exname}")
                 self.count("fault:" + fault + ":rejected")
                 status = "rejected"
@@ -322,7 +322,7 @@ class C09Engine(Engine):
                         hit = c
                         break
                 if hit is None:
-                    raise Violation(PROP, "state", {**ctx, "fault": fault,
+                    raise Violation(self.prop, "state", {**ctx, "fault": fault,
                                                     "what": "did not remove exactly one of the equal candidates"},
                                     f"bad-removal:{fault}")
                 self._remove(owner, field, hit)
